@@ -132,6 +132,15 @@ pub fn body_strategy(around: usize) -> impl Strategy<Value = Option<Vec<u8>>> {
         1 => vec(0x20u8..0x7f, 1..300),
         2 => (around.saturating_sub(40)..around + 40, any::<u8>(), any::<u8>()).prop_map(|(n, a, b)| (0..n.max(1)).map(|i| if i % 7 == 0 { a } else { b.wrapping_add(i as u8) }).collect()),
         1 => (1200usize..3000, any::<u8>()).prop_map(|(n, a)| (0..n).map(|i| a.wrapping_mul(i as u8).wrapping_add(i as u8 >> 3)).collect()),
+        // binary form data: a NUL early, a blank line (CR LF CR LF) later — bytes that look like the end of a head
+        1 => (vec(0x20u8..0x7f, 2..40), vec(any::<u8>(), 0..30), vec(0x20u8..0x7f, 0..60)).prop_map(|(a, b, c)| {
+            let mut v = a;
+            v.push(0);
+            v.extend(b);
+            v.extend_from_slice(b"\r\n\r\n");
+            v.extend(c);
+            v
+        }),
     ];
     prop::option::weighted(0.5, bytes)
 }
